@@ -68,6 +68,7 @@ from numpy import full
 from numpy import genfromtxt
 from numpy import inf
 from numpy import int64
+from numpy import iscomplexobj
 from numpy import isin
 from numpy import isinf
 from numpy import isnan
@@ -1827,6 +1828,9 @@ class DesignSpace:
                     # when approximating gradients with complex step.
                     if variable.type == "float":
                         value = value.real
+                    elif iscomplexobj(value):
+                        # to_complex() also casts the integer variables.
+                        value = int(value.real)
 
                     data["value"] = value
 
